@@ -690,6 +690,7 @@ type Case17 struct {
 	Aim   string       `json:"aim,omitempty"`   // infer: at run time one type parameter is renamed to the very name ("t<id>" / "s<id>") the checker is about to generate for one of its own fresh variables (a legal name: fresh means fresh for the terms at hand)
 	AimJ  int          `json:"aim_j,omitempty"`
 	Decoy int          `json:"decoy,omitempty"` // infer: a never-matching overload sharing f's type variables is registered before (1) / after (2) f
+	Wide  bool         `json:"wide,omitempty"`  // match: wide-function family under dense GC
 	Chain bool         `json:"chain,omitempty"` // unify: alias-chain family
 	Cross bool         `json:"cross,omitempty"` // equals: crossing DAG family
 	BotG  bool         `json:"bot_g,omitempty"` // match: the variable-free side contains the bottom type somewhere (pattern on the left, no function types: see DESIGN.md, X01)
@@ -969,6 +970,40 @@ func genCase17(r *rng) *Case17 {
 	case 7, 8:
 		c.Mode = "match"
 		c.X = g.top(d, true, false)
+		if r.chance(0.12) {
+			// wide function: many composite parameters (each a temporary of its own inside the
+			// unifier, dead as soon as the next parameter is reached) under a dense GC
+			// schedule, so that whatever the implementation remembers by raw address meets
+			// recycled addresses within ONE call
+			if len(g.vars) == 0 {
+				g.vars = []string{"a1", "a11"}
+			}
+			f := &T17{K: "fun", N: "f"}
+			n := 6 + r.intn(20)
+			uniform := r.chance(0.5) // every parameter of one shape, each with a variable of its own
+			w := r.pick([]string{"list", "maybe"})
+			for i := 0; i < n; i++ {
+				var p *T17
+				switch c := r.intn(4); {
+				case uniform:
+					p = &T17{K: "list", A: []*T17{{K: w, A: []*T17{{K: "var", N: fmt.Sprintf("w%d", i)}}}}}
+				case c == 0:
+					p = &T17{K: "list", A: []*T17{{K: "list", A: []*T17{{K: "var", N: g.vars[i%len(g.vars)]}}}}}
+				case c == 1:
+					p = &T17{K: "maybe", A: []*T17{{K: "list", A: []*T17{g.ty(1, true, false)}}}}
+				default:
+					p = g.ty(2, true, false)
+					if !p.composite() {
+						p = &T17{K: "list", A: []*T17{p}}
+					}
+				}
+				f.A = append(f.A, p)
+			}
+			f.A = append(f.A, g.ty(1, true, false))
+			c.X = f
+			c.GC = "spread"
+			c.Wide = true
+		}
 		gr := g.instantiate(c.X)
 		switch r.intn(3) {
 		case 0:
@@ -1145,6 +1180,12 @@ func gcFaults(mode string, steps uint64, seed uint64) []simrt.Fault {
 	switch mode {
 	case "dense":
 		for s := uint64(1); s <= steps && len(fs) < 60; s += 1 + seed%3 {
+			fs = append(fs, simrt.Fault{Step: s, Kind: "gc"})
+		}
+	case "spread":
+		// collections all along the call, not only at its start
+		k := steps/(20+seed%40) + 1
+		for s := 1 + seed%k; s <= steps && len(fs) < 80; s += k {
 			fs = append(fs, simrt.Fault{Step: s, Kind: "gc"})
 		}
 	case "sparse":
@@ -1645,6 +1686,9 @@ func (c17) Batch(seed uint64, wid, batch, count int, deadline time.Time, emit fu
 		}
 		if c.Chain {
 			cn["unify_alias_chain_cases"]++
+		}
+		if c.Wide {
+			cn["match_wide_function_cases"]++
 		}
 		if c.Decoy != 0 {
 			cn["infer_decoy_overload_cases"]++
